@@ -329,3 +329,32 @@ func vSetField(obj any, name string, val any) bool {
 	reflect.NewAt(v.Type(), unsafe.Pointer(v.UnsafeAddr())).Elem().Set(rv)
 	return true
 }
+
+// vFieldValue returns the (unexported) field of *obj by name as a value that may be read and, for channels, closed and
+// received from; the zero Value if there is no such field.
+func vFieldValue(obj any, name string) reflect.Value {
+	v := reflect.ValueOf(obj)
+	if v.Kind() != reflect.Ptr || v.IsNil() {
+		return reflect.Value{}
+	}
+	f := v.Elem().FieldByName(name)
+	if !f.IsValid() {
+		return reflect.Value{}
+	}
+	return reflect.NewAt(f.Type(), unsafe.Pointer(f.UnsafeAddr())).Elem()
+}
+
+// vGoroutineParked tells whether some goroutine whose stack holds a frame of the named function is blocked in the given
+// state (e.g. "chan receive").
+func vGoroutineParked(fn, state string) bool {
+	buf := make([]byte, 1<<20)
+	buf = buf[:runtime.Stack(buf, true)]
+	for _, g := range strings.Split(string(buf), "\n\n") {
+		if strings.Contains(g, fn) {
+			if hdr := strings.SplitN(g, "\n", 2)[0]; strings.Contains(hdr, "["+state) {
+				return true
+			}
+		}
+	}
+	return false
+}
